@@ -1,4 +1,5 @@
 From Coq Require Import ZArith Extraction ExtrOcamlBasic.
-From CyVerif Require Import Lib.CInt Model.M_Directives Gen.Gen_Directives.
+From CyVerif Require Import Lib.CInt Model.M_Directives Model.M_DirectivesDoc Gen.Gen_Directives.
 Extraction "../ocaml/gen/m_directives.ml" ex_keep g_parse_value g_parse_list g_visit_module g_scope_ok
-  g_defaults g_py_int codec_from_table get py_isspace lower strip.
+  g_defaults g_py_int codec_from_table get py_isspace lower strip
+  doc_immediate doc_behaviour doc_scope_ok doc_scopes g_immediate.
